@@ -31,5 +31,7 @@ for p in $list; do
   printf "%-8s %-4s %-45s tests=%s %5.1fs  %s\n" "$verdict" "$prop" "$name" "$tests" "$(echo "$t1 - $t0" | bc)" "$line"
 done
 rm -f "$ROOT"/replays/*.json
+# leave the build output in the state of the clean tree again
+(cd "$ROOT/sim" && cargo build --offline --release -p c18 -p c15 -p c03 >/dev/null 2>&1 && cargo build --offline --profile relchk -p c03 >/dev/null 2>&1)
 echo "caught=$pass missed=$fail"
 [ $fail = 0 ]
